@@ -52,8 +52,30 @@ for _m, _t in nc.POWTERM_WITNESSES:  # integer powers of single-term forms: thro
 def gen_case(rng, kind=None):
     modes = nc.rand_modes(rng)
     kind = kind or rng.choice(
-        ["mul", "mul", "fermi", "fermi", "assocL", "assocR", "sum", "adj", "pow", "powterm", "powterm", "mulsum", "whole", "whole", "roundtrip"]
+        ["mul", "mul", "fermi", "fermi", "assocL", "assocR", "sum", "adj", "pow", "powterm", "powterm", "mulsum", "whole", "whole", "roundtrip",
+         "negpow", "mixed"]
     )
+    if kind == "negpow":
+        # negative integer powers of particle-conserving forms and __truediv__ by them (l. 1556-1575)
+        f = nc.rand_numfun(rng, modes, 1)
+        w = nc.rand_sum(rng, modes, 2, 2)
+        r = rng.random()
+        if r < 0.35:
+            t = ["div", w, f]
+        elif r < 0.55:
+            t = ["div", w, nc.rand_const(rng)]
+        elif r < 0.8:
+            t = ["mul", w, ["pow", f, rng.choice([-1, -2])]]
+        else:
+            t = ["mul", ["pow", f, rng.choice([-1, -2, -3])], w]
+        return dict(modes=modes, tree=t, grid=nc.rand_grid(rng, modes, 6), kind="negpow")
+    if kind == "mixed":
+        # arithmetic of a form with a PLAIN sympy expression on either side (__radd__, __rmul__, __add__/__sub__/__mul__
+        # converting the other operand with from_expr)
+        x, e = nc.rand_sum(rng, modes, 2, 2), nc.rand_sum(rng, modes, 2, 2)
+        op = rng.choice(["radd", "add", "sub", "rmul", "mul"])
+        t = {"radd": ["add", e, x], "add": ["add", x, e], "sub": ["sub", x, e], "rmul": ["mul", e, x], "mul": ["mul", x, e]}[op]
+        return dict(modes=modes, tree=t, grid=nc.rand_grid(rng, modes, 5), kind="mixed", mixed=dict(x=x, e=e, op=op))
     if kind == "powterm":
         # x**k of a single-term form with a number-dependent coefficient, half of them through from_expr of the
         # sympy Pow with a compound base (kind "whole")
@@ -103,6 +125,13 @@ def run_impl(case):
     if case["kind"] == "whole":
         expr = nc.to_sympy(case["tree"], ops)
         x = nc.NumberOrderedForm.from_expr(expr, operators=ops)
+        exact = False
+    elif case["kind"] == "mixed":
+        m = case["mixed"]
+        X, E = nc.build_impl(m["x"], ops), nc.to_sympy(m["e"], ops)
+        x = {"radd": lambda: E + X, "add": lambda: X + E, "sub": lambda: X - E, "rmul": lambda: E * X, "mul": lambda: X * E}[m["op"]]()
+        if not isinstance(x, nc.NumberOrderedForm):
+            raise TypeError("%s of a NumberOrderedForm and a sympy expression returned %s" % (m["op"], type(x).__name__))
         exact = False
     elif case["kind"] == "roundtrip":
         x0 = nc.build_impl(case["tree"], ops)
